@@ -80,6 +80,7 @@ structure FacInfo where
   hasLocatorAccessor : Bool
   protoKeysBefore : Nat
   protoKeysAfter : Nat
+  compKeys : Nat := 0            -- number of services in the locator the component was constructed with
   deriving DecidableEq, Repr, Inhabited
 
 structure World where
@@ -480,13 +481,14 @@ def facInfo (ir : ShellIR) (pump runtime extra : Bool) : FacInfo :=
   if f.cloneSet && f.encOwn then
     -- m_locator = prototype.clone().set(m_runtime).set(m_dispatcher); m_encapsulee(m_locator)
     { compLocatorIsProto := false, compPump := .own, compRuntime := .own, compExtra := extra, dispatcher := .own,
-      hasLocatorAccessor := acc, protoKeysBefore := n, protoKeysAfter := n }
+      hasLocatorAccessor := acc, protoKeysBefore := n, protoKeysAfter := n,
+      compKeys := n + (if pump then 0 else 1) + (if runtime then 0 else 1) }
   else if f.encProto then
     -- m_encapsulee(locator): the component is handed the user's locator object itself
     { compLocatorIsProto := true, compPump := if pump then .proto else .absent,
       compRuntime := if runtime then .proto else .absent, compExtra := extra,
       dispatcher := if f.dispFromLocator then .proto else .absent,
-      hasLocatorAccessor := acc, protoKeysBefore := n, protoKeysAfter := n }
+      hasLocatorAccessor := acc, protoKeysBefore := n, protoKeysAfter := n, compKeys := n }
   else
     { compLocatorIsProto := false, compPump := .absent, compRuntime := .absent, compExtra := false, dispatcher := .absent,
       hasLocatorAccessor := acc, protoKeysBefore := n, protoKeysAfter := n }
@@ -677,7 +679,8 @@ def step (m : Machine) (line : Str) : Machine :=
           L " comp_extra=" ++ (if f.compExtra then L "1" else L "0") ++ L " shell_pump=na has_locator=" ++
           (if f.hasLocatorAccessor then L "1" else L "0") ++ L " locator_is_comp_loc=" ++
           (if f.hasLocatorAccessor then L "1" else L "na") ++
-          L " proto_keys=" ++ natToStr f.protoKeysBefore ++ L "/" ++ natToStr f.protoKeysAfter ++ L " meta_name=" ++ name)
+          L " proto_keys=" ++ natToStr f.protoKeysBefore ++ L "/" ++ natToStr f.protoKeysAfter ++
+          L " comp_keys=" ++ natToStr f.compKeys ++ L " meta_name=" ++ name)
         -- ident lines in declaration order of the exposed ports
         let m := m.allPorts.foldl (fun m (pi : Port × InterfaceD) =>
           match findPort m.ir pi.1.name with
